@@ -75,7 +75,8 @@ theorem Rel.program {items : List Item} {P : Pulse} {prog : Loop} (h : Rel items
     prog.duration = P.dur ∧
     (∀ c pl, P.chans.lookup c = some pl → ∀ t, 0 ≤ t → t < P.dur → prog.sample c t = PL.at pl t) ∧
     prog.windows.Perm P.windows ∧
-    (∀ cs ∈ prog.leafChannels, ∀ x, x ∈ cs ↔ x ∈ P.chanNames) := by
+    (∀ cs ∈ prog.leafChannels, ∀ x, x ∈ cs ↔ x ∈ P.chanNames) ∧
+    (∀ c pl, P.chans.lookup c = some pl → PL.dur pl = P.dur) := by
   unfold toProgram at hp
   simp only [rootLoop, applyItems_eq, List.nil_append, Loop.durationList] at hp
   by_cases he : (Loop.mk 1 none (measW items 0) (nodesOf items)).isEmpty
@@ -91,7 +92,7 @@ theorem Rel.program {items : List Item} {P : Pulse} {prog : Loop} (h : Rel items
       simp only [Loop.allPos, Loop.allPosB, Bool.and_eq_true] at hpos
       exact hpos.2
     have hd : 0 < P.dur := by rw [← h.dur]; exact Loop.allPosList_duration_pos _ hposl hne
-    refine ⟨?_, ?_, ?_, ?_⟩
+    refine ⟨?_, ?_, ?_, ?_, h.plDur⟩
     · rw [duration_none, h.dur]; simp
     · intro c pl hc t ht0 ht
       have hfl := floor_div_eq t P.dur 0 hd (by simpa using ht0) (by simpa using ht)
@@ -122,15 +123,32 @@ theorem topCtx_ok {pt : PT} {params : List (String × Rat)} {mm : Option (List (
     rw [← h]
     exact ⟨rfl, rfl⟩
 
-/-- compile correctness for stage-1 templates, in terms of `create_program` and the denoted pulse -/
-theorem createProgram_rel {pt : PT} (hs : Stage1 pt) (params : List (String × Rat))
+/-- the channel mapping `create_program` completes from the user's -/
+def topCm (pt : PT) (cmUser : List (Chan × Option Chan)) : List (Chan × Option Chan) :=
+  cmUser.foldl (fun d (k, v) => cmUpdate d k v) (pt.definedChannels.map (fun c => (c, some c)))
+
+theorem topCtx_cm {pt : PT} {params : List (String × Rat)} {mm : Option (List (MName × Option MName))}
+    {cm : List (Chan × Option Chan)} {single : List String} {ctx : Ctx}
+    (h : topCtx pt params mm cm single = .ok ctx) : ctx.cm = topCm pt cm := by
+  unfold topCtx at h
+  by_cases hd : hasDup (cm.filterMap (·.2)) = true
+  · simp [hd] at h
+  · simp only [hd, Bool.false_eq_true, if_false, Except.ok.injEq] at h
+    rw [← h]
+    rfl
+
+/-- from the relation for the compiled items (however obtained) to `create_program` and the denoted pulse -/
+theorem createProgram_rel_of {pt : PT} (params : List (String × Rat))
     (mm : Option (List (MName × Option MName))) (cm : List (Chan × Option Chan)) (prog : Loop) (P : Pulse)
+    (hok : ∀ σ mm' items, internal pt (ctx0 σ mm' (topCm pt cm)) = .ok items → denote pt σ mm' (topCm pt cm) = .ok P →
+      Loop.allPosList (nodesOf items) → Rel items P)
     (h1 : createProgram pt params mm cm [] = .ok (some prog)) (h2 : denoteTop pt params mm cm = .ok P)
     (hpos : prog.allPos) :
     prog.duration = P.dur ∧
     (∀ c pl, P.chans.lookup c = some pl → ∀ t, 0 ≤ t → t < P.dur → prog.sample c t = PL.at pl t) ∧
     prog.windows.Perm P.windows ∧
-    (∀ cs ∈ prog.leafChannels, ∀ x, x ∈ cs ↔ x ∈ P.chanNames) := by
+    (∀ cs ∈ prog.leafChannels, ∀ x, x ∈ cs ↔ x ∈ P.chanNames) ∧
+    (∀ c pl, P.chans.lookup c = some pl → PL.dur pl = P.dur) := by
   simp only [createProgram, bind_ok, pure_ok] at h1
   obtain ⟨ctx, hctx, items, hitems, hprog⟩ := h1
   simp only [denoteTop, bind_ok] at h2
@@ -156,7 +174,32 @@ theorem createProgram_rel {pt : PT} (hs : Stage1 pt) (params : List (String × R
         rw [hcs] at hpos
         simp only [Loop.allPos, Loop.allPosB, Bool.and_eq_true] at hpos
         exact hpos.2
-  exact (compile_rel hs.basic ctx.scope ctx.mm ctx.cm items P hitems h2 hposl).program hprog hpos
+  rw [topCtx_cm hctx] at hitems h2
+  exact (hok ctx.scope ctx.mm items hitems h2 hposl).program hprog hpos
+
+/-- compile correctness for templates over correct atoms, in terms of `create_program` and the denoted pulse -/
+theorem createProgram_rel_basic {pt : PT} (hb : Basic pt) (params : List (String × Rat))
+    (mm : Option (List (MName × Option MName))) (cm : List (Chan × Option Chan)) (prog : Loop) (P : Pulse)
+    (h1 : createProgram pt params mm cm [] = .ok (some prog)) (h2 : denoteTop pt params mm cm = .ok P)
+    (hpos : prog.allPos) :
+    prog.duration = P.dur ∧
+    (∀ c pl, P.chans.lookup c = some pl → ∀ t, 0 ≤ t → t < P.dur → prog.sample c t = PL.at pl t) ∧
+    prog.windows.Perm P.windows ∧
+    (∀ cs ∈ prog.leafChannels, ∀ x, x ∈ cs ↔ x ∈ P.chanNames) ∧
+    (∀ c pl, P.chans.lookup c = some pl → PL.dur pl = P.dur) :=
+  createProgram_rel_of params mm cm prog P
+    (fun σ mm' items hi hd hp => compile_rel hb σ mm' _ items P hi hd hp) h1 h2 hpos
+
+theorem createProgram_rel {pt : PT} (hs : Stage1 pt) (params : List (String × Rat))
+    (mm : Option (List (MName × Option MName))) (cm : List (Chan × Option Chan)) (prog : Loop) (P : Pulse)
+    (h1 : createProgram pt params mm cm [] = .ok (some prog)) (h2 : denoteTop pt params mm cm = .ok P)
+    (hpos : prog.allPos) :
+    prog.duration = P.dur ∧
+    (∀ c pl, P.chans.lookup c = some pl → ∀ t, 0 ≤ t → t < P.dur → prog.sample c t = PL.at pl t) ∧
+    prog.windows.Perm P.windows ∧
+    (∀ cs ∈ prog.leafChannels, ∀ x, x ∈ cs ↔ x ∈ P.chanNames) ∧
+    (∀ c pl, P.chans.lookup c = some pl → PL.dur pl = P.dur) :=
+  createProgram_rel_basic hs.basic params mm cm prog P h1 h2 hpos
 
 /-! Equation lemmas that the evaluation examples in `QP.Props.*` unfold are generated here, so that they are
 not counted as theorems of the property modules by `Audit.lean`. -/
